@@ -53,6 +53,28 @@ def divConst (a : Val) (d : Nat) : Val :=
   let k := bitLen (n.natAbs / d) - 53
   { m := rhe n ((d : Int) * 2 ^ k), e := a.e - s + k }
 
+/-- Floating-point division by a positive value: the exact quotient rounded once to 53 bits. -/
+def divVal (a b : Val) : Val :=
+  if a.m = 0 then { m := 0, e := 0 } else
+  let d := b.m.natAbs
+  let s := 64 + bitLen d
+  let n := a.m * 2 ^ s
+  let k := bitLen (n.natAbs / d) - 53
+  { m := rhe n ((d : Int) * 2 ^ k), e := a.e - b.e - s + k }
+
+/-- Exact negation (`x * -1`). -/
+def neg (a : Val) : Val := { a with m := -a.m }
+
+/-- The carrier wavelength as the code computes it: `SpeedOfLightMS / frequency` for an integer
+    frequency in Hz (both exactly representable), rounded once. -/
+def wavelength (f : Nat) : Val := divVal (ofInt 299792458) (ofInt f)
+
+/-- The phase range in cycles as the code computes it from an aggregate phase range (units 2^-31 ms). -/
+def phaseCycles (S f : Nat) : Val := divVal (mul (scale2 (ofInt S) (-31)) cLightMs) (wavelength f)
+
+/-- The Doppler in Hz as the code computes it from the aggregate rate (units 0.0001 m/s). -/
+def dopplerHz (A : Int) (f : Nat) : Val := neg (divVal (divConst (ofInt A) 10000) (wavelength f))
+
 /-- `v * 2^s` as an integer, for `s` large enough that nothing is lost. -/
 def Val.scaled (v : Val) (s : Int) : Int := v.m * 2 ^ (v.e + s).toNat
 
